@@ -57,7 +57,7 @@ func (c02) Budget(tier string) runner.Budget {
 
 func (c02) Describe() runner.Description {
 	return runner.Description{
-		Rule:        "each case is one seeded history (3..200 ops, swarm-varied mix) of update/delete/get/hash/commit/warm-reopen/cold-reopen/cache-limit/node-cache-eviction(NodeDatabase.Cap)/iterate over 1-2 tries sharing one NodeDatabase on the simulated disk with one-shot disk read faults, or (fault-free plans, about a third) on the repository's own MemDatabase; after EVERY op the real root is compared with an independent Yellow-Paper MPT root of the model map, reads with the map, iteration with the sorted live pairs; at the end history independence (re-insertion in a seeded other order). distinct_nontrivial = distinct final-content fingerprints among histories that deleted an existing key AND reopened or unloaded nodes (commit with cache limit / cold reopen).",
+		Rule:        "each case is one seeded history (3..200 ops, swarm-varied mix) of update/delete/get/hash/commit/warm-reopen/cold-reopen/cache-limit/node-cache-eviction(NodeDatabase.Cap)/iterate/iterate-from-a-start-key over 1-2 tries sharing one NodeDatabase on the simulated disk with one-shot disk read faults, or (fault-free plans, about a third) on the repository's own MemDatabase; after EVERY op the real root is compared with an independent Yellow-Paper MPT root of the model map, reads with the map, iteration with the sorted live pairs; at the end history independence (re-insertion in a seeded other order). distinct_nontrivial = distinct final-content fingerprints among histories that deleted an existing key AND reopened or unloaded nodes (commit with cache limit / cold reopen).",
 		Assumptions: []string{"keccak256 from golang.org/x/crypto is correct", "the harness's own 60-line RLP/hex-prefix encoder follows the Yellow Paper", "disk read faults are only injected as one-shot errors or not-found results"},
 		Real:        []string{"storage/trie (Trie, hasher, NodeDatabase, iterator)", "storage/rlp (used by the trie)", "common/sha3"},
 		Stub:        []string{"disk: simdisk.KV (in-memory map with write log and fault switchboard) in plans that inject faults; the real MemDatabase otherwise"},
@@ -146,7 +146,7 @@ func (c02) Gen(seed uint64, tier string) json.RawMessage {
 	}
 	// swarm: per-plan op weights
 	w := map[string]int{"upd": r.Range(3, 10), "del": r.Range(0, 6), "get": r.Range(0, 3), "hash": r.Range(0, 3),
-		"commit": r.Range(0, 4), "warm": r.Range(0, 2), "cold": r.Range(0, 2), "limit": r.Range(0, 1), "iter": r.Range(0, 2), "fault": 0, "cap": 0}
+		"commit": r.Range(0, 4), "warm": r.Range(0, 2), "cold": r.Range(0, 2), "limit": r.Range(0, 1), "iter": r.Range(0, 2), "fault": 0, "cap": 0, "iterfrom": r.Range(0, 2)}
 	if r.Chance(0.4) {
 		w["fault"] = r.Range(1, 3)
 	} else if r.Chance(0.5) {
@@ -155,7 +155,7 @@ func (c02) Gen(seed uint64, tier string) json.RawMessage {
 	if r.Chance(0.4) {
 		w["cap"] = r.Range(1, 3)
 	}
-	kinds := []string{"upd", "del", "get", "hash", "commit", "warm", "cold", "limit", "iter", "fault", "cap"}
+	kinds := []string{"upd", "del", "get", "hash", "commit", "warm", "cold", "limit", "iter", "fault", "cap", "iterfrom"}
 	tot := 0
 	for _, k := range kinds {
 		tot += w[k]
@@ -181,6 +181,20 @@ func (c02) Gen(seed uint64, tier string) json.RawMessage {
 			}
 		case "del", "get":
 			op.Key = hex.EncodeToString(pool[r.Intn(len(pool))])
+		case "iterfrom":
+			// iteration from a start key: a key of the pool, a cut or extended one, or arbitrary bytes
+			k := append([]byte{}, pool[r.Intn(len(pool))]...)
+			switch r.Intn(4) {
+			case 0:
+				if len(k) > 1 {
+					k = k[:r.Range(1, len(k)-1)]
+				}
+			case 1:
+				k = append(k, byte(r.Intn(256)))
+			case 2:
+				k = r.Bytes(r.Range(1, 4))
+			}
+			op.Key = hex.EncodeToString(k)
 		case "limit":
 			op.N = r.Range(0, 3)
 		case "cap":
@@ -494,6 +508,64 @@ func (c02) Exec(raw json.RawMessage, st *simrt.Stats, log *simrt.Log) *simrt.Vio
 					return viol(i, "iteration-wrong", "order", "item %d is %x, ascending order expects %x", j, gotK[j], keys[j])
 				}
 			}
+		case "iterfrom":
+			// a node iterator positioned at a start key yields the pairs whose path (nibbles + terminator) is not
+			// below the start key's nibbles, in the trie's own order
+			it := trie.NewIterator(t.tr.NodeIterator(key))
+			var want []string
+			for k := range t.model {
+				want = append(want, k)
+			}
+			sort.Slice(want, func(a, b int) bool { return nibTermLess(want[a], want[b]) })
+			startNib := make([]int, 0, 2*len(key))
+			for _, c := range key {
+				startNib = append(startNib, int(c>>4), int(c&15))
+			}
+			notBelow := func(k string) bool {
+				p := make([]int, 0, 2*len(k)+1)
+				for i := 0; i < len(k); i++ {
+					p = append(p, int(k[i]>>4), int(k[i]&15))
+				}
+				p = append(p, 16)
+				for i := 0; i < len(p) && i < len(startNib); i++ {
+					if p[i] != startNib[i] {
+						return p[i] > startNib[i]
+					}
+				}
+				return len(p) >= len(startNib)
+			}
+			var exp []string
+			for _, k := range want {
+				if notBelow(k) {
+					exp = append(exp, k)
+				}
+			}
+			var got []string
+			bad := ""
+			for it.Next() && len(got) <= len(exp)+2 {
+				got = append(got, string(it.Key))
+				if mv, ok := t.model[string(it.Key)]; !ok || !bytes.Equal(mv, it.Value) {
+					bad = fmt.Sprintf("yields (%x,%x) which is not a live pair", it.Key, it.Value)
+				}
+			}
+			if it.Err != nil {
+				if !faulty {
+					return viol(i, "spurious-error", "iterate-from", "iterator error: %v", it.Err)
+				}
+				break
+			}
+			if bad == "" && len(got) != len(exp) {
+				bad = fmt.Sprintf("yields %d pairs, %d live pairs are not below the start key", len(got), len(exp))
+			}
+			for j := 0; bad == "" && j < len(exp); j++ {
+				if got[j] != exp[j] {
+					bad = fmt.Sprintf("item %d is %x, expected %x", j, got[j], exp[j])
+				}
+			}
+			if bad != "" {
+				return viol(i, "iteration-wrong", "from-start-key", "iteration from start key %x %s", key, bad)
+			}
+			st.Probe("iterate_from_start_key")
 		case "fault":
 			faultArmed = op.N
 			faultMissing = rawT == 1
